@@ -122,11 +122,11 @@ Qed.
 
 (* a source that holds no ammo (empty, or white space only): with the guard installed the provider ends after ONE pass,
    whatever passes / limit say *)
-Lemma jd_passes_no_ammo_ends : forall v passes limit nonempty fuel,
+Lemma jd_passes_no_ammo_ends : forall v passes limit pend nonempty fuel,
   jv_guard v passes = true ->
-  jd_passes (S fuel) v passes limit 0 nonempty 0 0 0 = (JdNil, 0).
+  jd_passes (S fuel) v passes limit 0 pend nonempty 0 0 0 = (JdNil, 0).
 Proof.
-  intros v passes limit nonempty fuel Hg. cbn [jd_passes Nat.add].
+  intros v passes limit pend nonempty fuel Hg. cbn [jd_passes Nat.add Nat.sub].
   replace (jd_lim_reached limit 0) with false
     by (unfold jd_lim_reached; destruct limit; reflexivity).
   destruct nonempty; cbn [negb]; [|reflexivity].
@@ -135,24 +135,24 @@ Qed.
 
 (* the edit "install the guard only for passes > 1": with passes = 0 (unlimited) a source of white space only is
    rewound for ever -- whatever the fuel, it is used up; the queue is never closed *)
-Lemma jd_passes_guardless_never_ends : forall fuel limit pc db,
-  jd_passes fuel jd_guard_for_several_passes 0 limit 0 true pc 0 db = (JdOutOfFuel, 0).
+Lemma jd_passes_guardless_never_ends : forall fuel limit pend pc db,
+  jd_passes fuel jd_guard_for_several_passes 0 limit 0 pend true pc 0 db = (JdOutOfFuel, 0).
 Proof.
-  induction fuel as [|f IH]; intros limit pc db; [reflexivity|].
-  cbn [jd_passes Nat.add].
+  induction fuel as [|f IH]; intros limit pend pc db; [reflexivity|].
+  cbn [jd_passes Nat.add Nat.sub].
   replace (jd_lim_reached limit 0) with false
     by (unfold jd_lim_reached; destruct limit; reflexivity).
   cbn. apply IH.
 Qed.
 
-(* a source with ammo, passes > 0, no limit: the guard never refuses a rewind, the provider ends after `passes` passes
-   having handed out passes * a ammo *)
+(* a source with ammo that reports its end on a read of its own, passes > 0, no limit: the guard never refuses a rewind,
+   the provider ends after `passes` passes having handed out passes * a ammo *)
 Lemma jd_passes_counts : forall v a passes n pc d db fuel,
   0 < a -> 0 < n -> pc + n = passes -> db <= d -> n <= fuel ->
-  jd_passes fuel v passes 0 a true pc d db = (JdNil, d + n * a).
+  jd_passes fuel v passes 0 a 0 true pc d db = (JdNil, d + n * a).
 Proof.
   intros v a passes n. revert passes. induction n as [|n IH]; intros passes pc d db fuel Ha Hn Hp Hdb Hf; [lia|].
-  destruct fuel as [|f]; [lia|]. cbn [jd_passes negb].
+  destruct fuel as [|f]; [lia|]. cbn [jd_passes negb]. rewrite Nat.sub_0_r.
   replace (jd_lim_reached 0 (d + a)) with false by reflexivity.
   destruct n as [|n'].
   - replace (passes =? 0) with false by (symmetry; apply Nat.eqb_neq; lia).
@@ -166,16 +166,29 @@ Proof.
 Qed.
 
 (* with a limit the provider ends whatever passes says (also passes = 0), within limit + 1 passes *)
-Lemma jd_passes_limit_ends : forall v a passes limit fuel pc d db,
+Lemma jd_passes_limit_ends : forall v a passes limit pend fuel pc d db,
   0 < a -> 0 < limit -> limit <= d + fuel ->
-  fst (jd_passes (S fuel) v passes limit a true pc d db) = JdNil.
+  fst (jd_passes (S fuel) v passes limit a pend true pc d db) = JdNil.
 Proof.
-  intros v a passes limit fuel. induction fuel as [|f IH]; intros pc d db Ha Hl Hf.
+  intros v a passes limit pend fuel. induction fuel as [|f IH]; intros pc d db Ha Hl Hf.
   - cbn [jd_passes]. unfold jd_lim_reached.
     replace (0 <? limit) with true by (symmetry; apply Nat.ltb_lt; lia).
     replace (limit <=? d + a) with true by (symmetry; apply Nat.leb_le; lia). reflexivity.
   - cbn [jd_passes negb]. destruct (jd_lim_reached limit (d + a)); [reflexivity|].
     destruct ((passes =? 0) || (S pc <? passes)); [|reflexivity].
-    destruct (jv_guard v passes && (d + a =? db)); [reflexivity|].
+    destruct (jv_guard v passes && (d + a - pend =? db)); [reflexivity|].
     apply IH; lia.
+Qed.
+
+(* the full statement "passes passes hand out passes * a ammo" is FALSE of a source that can be sought and hands all its
+   data out in one read together with io.EOF: the guard, asked to rewind inside that read, sees that nothing was decoded
+   yet and refuses -- one pass only, whatever passes says (0 = unlimited included) *)
+Lemma jd_passes_eof_with_data_one_pass : forall v a passes fuel,
+  0 < a -> passes <> 1 -> jv_guard v passes = true ->
+  jd_passes (S fuel) v passes 0 a a true 0 0 0 = (JdNil, a).
+Proof.
+  intros v a passes fuel Ha Hp Hg. cbn [jd_passes negb Nat.add].
+  replace (jd_lim_reached 0 a) with false by reflexivity.
+  rewrite Hg, Nat.sub_diag. cbn [Nat.eqb andb].
+  destruct passes as [|[|p]]; [reflexivity|contradiction Hp; reflexivity|reflexivity].
 Qed.
